@@ -155,11 +155,13 @@ func (e *Explorer) branch(cond *smt.Term) bool {
 	}
 	rt := e.check(cond)
 	if rt == smt.Unsat {
-		// only the false arm
+		// only the false arm (recorded so that replays stay aligned)
+		e.trace = append(e.trace, Decision{Kind: 'b', Ch: 1})
 		return false
 	}
 	rf := e.check(sctx.Not(cond))
 	if rf == smt.Unsat {
+		e.trace = append(e.trace, Decision{Kind: 'b', Ch: 0})
 		return true
 	}
 	if rt == smt.Unknown || rf == smt.Unknown {
@@ -197,49 +199,38 @@ func (e *Explorer) choose(n int) int {
 	return ch
 }
 
-// concretize enumerates the feasible values of a symbolic scalar by forking.
+// concretize enumerates the feasible values of a symbolic scalar (one solver
+// session with blocking clauses) and forks one path per value.
 func (e *Explorer) concretize(s sym, why string) value {
-	n := 0
-	for {
-		k := len(e.trace)
-		if k < len(e.prefix) {
-			d := e.prefix[k]
-			if d.Kind != 'v' {
-				panic(engineLimit{fmt.Sprintf("decision log mismatch at %d: want concretisation, have %c", k, d.Kind)})
-			}
-			e.trace = append(e.trace, d)
-			cv := constOfKind(s.k, d.Val)
-			eq := sctx.Eq(s.e, cv)
-			if d.Ch == 0 {
-				e.addPC(eq)
-				return mkConcrete(s.k, d.Val)
-			}
-			e.addPC(sctx.Not(eq))
-			n++
-			continue
+	k := len(e.trace)
+	if k < len(e.prefix) {
+		d := e.prefix[k]
+		if d.Kind != 'v' {
+			panic(engineLimit{fmt.Sprintf("decision log mismatch at %d: want concretisation, have %c", k, d.Kind)})
 		}
-		if n >= e.MaxConc {
-			panic(engineLimit{"concretisation limit (" + why + ")"})
-		}
-		as := append([]*smt.Term{}, e.pc...)
-		r, vals := e.Solver.Check(as, []*smt.Term{s.e})
-		if r == smt.Unsat {
-			panic(pathAbort{"no more values"})
-		}
-		if r == smt.Unknown {
+		e.trace = append(e.trace, d)
+		e.addPC(sctx.Eq(s.e, constOfKind(s.k, d.Val)))
+		return mkConcrete(s.k, d.Val)
+	}
+	if k >= e.MaxDepth {
+		panic(engineLimit{"decision depth limit"})
+	}
+	vals, complete := e.Solver.Enumerate(e.pc, s.e, e.MaxConc)
+	if len(vals) == 0 {
+		if !complete {
 			panic(engineLimit{"concretisation: solver unknown (" + why + ")"})
 		}
-		v := vals[0]
-		cv := constOfKind(s.k, v)
-		eq := sctx.Eq(s.e, cv)
-		// is there another value?
-		if e.check(sctx.Not(eq)) != smt.Unsat {
-			e.pushAlt(Decision{Kind: 'v', Ch: 1, Val: v})
-		}
-		e.trace = append(e.trace, Decision{Kind: 'v', Ch: 0, Val: v})
-		e.addPC(eq)
-		return mkConcrete(s.k, v)
+		panic(pathAbort{"no feasible value"})
 	}
+	if !complete {
+		e.inconclusive(fmt.Sprintf("concretisation of %s stopped after %d values (limit or solver unknown)", why, len(vals)))
+	}
+	for i := len(vals) - 1; i >= 1; i-- {
+		e.pushAlt(Decision{Kind: 'v', Ch: 0, Val: vals[i]})
+	}
+	e.trace = append(e.trace, Decision{Kind: 'v', Ch: 0, Val: vals[0]})
+	e.addPC(sctx.Eq(s.e, constOfKind(s.k, vals[0])))
+	return mkConcrete(s.k, vals[0])
 }
 
 func constOfKind(k types.BasicKind, bits uint64) *smt.Term {
